@@ -35,7 +35,7 @@ class C20(PropBase):
     coq_imports = "Graph.MixedGraph Graph.DSep Graph.Sigma Corr.C20"
     budgets = {"quick": 1200, "thorough": 12000}
     per_file = 150
-    rule = ("random directed mixed graphs with 2..6 nodes, 35% with directed cycles; forced bows and chains below colliders; up to 10 (a,b,C) per graph; "
+    rule = ("random directed mixed graphs with 2..6 nodes, 35% with directed cycles; forced bows and chains below colliders; up to 10 (a,b,C) per graph (|C| up to all other nodes); "
             "non-trivial: the pair is connected in the skeleton and (C non-empty or a bidirected edge or a cycle is present); distinct by (graph,a,b,C)")
     explanation = ("adjacency clause proved for all mixed graphs; agreement with the textbook d-separation specification and symmetry are evaluated "
                    "on the model inside Coq for every generated case and on y0 directly by an independent oracle")
@@ -53,7 +53,8 @@ class C20(PropBase):
             g = GG.rand_admg_big(rng, cyclic=rng.random() < 0.35) if rng.random() < 0.04 else GG.rand_admg(rng, 2, 6, cyclic=rng.random() < 0.35)
             for _ in range(10):
                 a, b = rng.sample(g["nodes"], 2)
-                C = GG.rand_subset(rng, [x for x in g["nodes"] if x not in (a, b)], 0, 3)
+                rest = [x for x in g["nodes"] if x not in (a, b)]
+                C = GG.rand_subset(rng, rest, 0, 3 if rng.random() < 0.7 else len(rest))
                 cases.append({"g": g, "a": a, "b": b, "C": C})
         return cases
 
